@@ -89,37 +89,59 @@ class IfAssign(ast.NodeTransformer):
 
 
 # ------------------------------------------------------------------------------------------------ helper inlining
-def _simple_helper(fn):
-    """(params, body statements, return expr) for a straight-line helper: Assign/AugAssign/Expr statements then one Return; no defaults use,
-    no nested control flow, no *args/**kwargs"""
+def _simple_helper(fn, allow_nested=True):
+    """(params, body statements, return expr, defaults, extra) for a helper whose body is Assign / AugAssign / Expr / If / For / While / nested def
+    statements ending in one `return` (early bare returns of procedures are structured away first); extra = (vararg, kwarg, kwonly names, kw defaults)"""
     a = fn.args
-    if a.vararg or a.kwarg or a.kwonlyargs or a.posonlyargs:
+    if a.posonlyargs:
         return None
     body = [s for s in fn.body if not (isinstance(s, ast.Expr) and isinstance(s.value, ast.Constant))]
     if not body:
         return None
-    if all(n.value is None for s in body for n in ast.walk(s) if isinstance(n, ast.Return)) and any(isinstance(n, ast.Return) for s in body for n in ast.walk(s)):
+    own_returns = [n for s in body for n in _walk_own(s) if isinstance(n, ast.Return)]
+    if own_returns and all(n.value is None for n in own_returns):
         body = _structure_early_returns(body)
         if body is None:
             return None
+        own_returns = [n for s in body for n in _walk_own(s) if isinstance(n, ast.Return)]
     if not isinstance(body[-1], ast.Return) or body[-1].value is None:
         # a procedure: no return anywhere -> its "value" is None
-        if any(isinstance(n, ast.Return) for s in body for n in ast.walk(s)):
+        if own_returns:
             return None
         body = body + [ast.Return(value=ast.Constant(value=None))]
+    kinds = (ast.Assign, ast.AugAssign, ast.AnnAssign, ast.If, ast.For, ast.Expr, ast.While, ast.FunctionDef, ast.Raise, ast.Pass, ast.Delete, ast.Assert)
     for s in body[:-1]:
-        if not isinstance(s, (ast.Assign, ast.AugAssign, ast.AnnAssign, ast.If, ast.For, ast.Expr)):
+        if not isinstance(s, kinds):
             return None
-        for n in ast.walk(s):
-            if isinstance(n, (ast.Return, ast.Break, ast.Continue)) and not isinstance(s, (ast.Assign, ast.AugAssign, ast.AnnAssign)):
+        if isinstance(s, ast.FunctionDef) and not allow_nested:
+            return None
+        for n in _walk_own(s):
+            if isinstance(n, ast.Return):
+                return None
+            if isinstance(n, (ast.Break, ast.Continue)) and not isinstance(s, (ast.For, ast.While)):
                 return None
     for s in body:
-        for n in ast.walk(s):
-            if isinstance(n, (ast.Yield, ast.YieldFrom, ast.Lambda, ast.FunctionDef, ast.NamedExpr, ast.Global, ast.Nonlocal, ast.Try, ast.With, ast.While)):
+        for n in _walk_own(s):
+            if isinstance(n, (ast.Yield, ast.YieldFrom, ast.NamedExpr, ast.Global, ast.Nonlocal, ast.Try, ast.With)):
                 return None
+    for n in ast.walk(fn):
+        if isinstance(n, (ast.Global, ast.Nonlocal, ast.Yield, ast.YieldFrom)):
+            return None
     if fn.decorator_list:
         return None
-    return [x.arg for x in a.args], body[:-1], body[-1].value, a.defaults
+    extra = (a.vararg.arg if a.vararg else None, a.kwarg.arg if a.kwarg else None, [x.arg for x in a.kwonlyargs], list(a.kw_defaults))
+    return [x.arg for x in a.args], body[:-1], body[-1].value, a.defaults, extra
+
+
+def _walk_own(node):
+    """ast.walk that does not descend into nested function / lambda / class bodies (the nested def node itself is yielded)"""
+    todo = [node]
+    while todo:
+        n = todo.pop()
+        yield n
+        if isinstance(n, (ast.FunctionDef, ast.AsyncFunctionDef, ast.Lambda, ast.ClassDef)) and n is not node:
+            continue
+        todo.extend(ast.iter_child_nodes(n))
 
 
 def _structure_early_returns(body):
@@ -131,9 +153,9 @@ def _structure_early_returns(body):
     out = []
     for i, s_ in enumerate(body):
         if isinstance(s_, ast.Return) and s_.value is None:
-            return out if all(not any(isinstance(n, ast.Return) for n in ast.walk(x)) for x in out) else None
+            return out if all(not any(isinstance(n, ast.Return) for n in _walk_own(x)) for x in out) else None
         if isinstance(s_, ast.If) and not s_.orelse and s_.body and isinstance(s_.body[-1], ast.Return) and s_.body[-1].value is None \
-                and not any(isinstance(n, ast.Return) for x in s_.body[:-1] for n in ast.walk(x)):
+                and not any(isinstance(n, ast.Return) for x in s_.body[:-1] for n in _walk_own(x)):
             rest = _structure_early_returns(body[i + 1:])
             if rest is None:
                 return None
@@ -142,13 +164,27 @@ def _structure_early_returns(body):
             ast.fix_missing_locations(new)
             out.append(new)
             return out
-        if any(isinstance(n, ast.Return) for n in ast.walk(s_)):
+        if any(isinstance(n, ast.Return) for n in _walk_own(s_)):
             return None
         out.append(s_)
     return out
 
 
+def _scope_bound(node):
+    """names bound by a nested function / lambda / comprehension scope itself (parameters and, for defs, local stores)"""
+    if isinstance(node, (ast.FunctionDef, ast.AsyncFunctionDef, ast.Lambda)):
+        a = node.args
+        out = {x.arg for x in a.posonlyargs + a.args + a.kwonlyargs}
+        if a.vararg:
+            out.add(a.vararg.arg)
+        if a.kwarg:
+            out.add(a.kwarg.arg)
+        return out
+    return set()
+
+
 class _Rename(ast.NodeTransformer):
+    """substitute names; parameters of nested functions / lambdas shadow the mapping inside their bodies"""
     def __init__(self, mapping):
         self.mapping = mapping
 
@@ -161,23 +197,68 @@ class _Rename(ast.NodeTransformer):
                 return copy.deepcopy(r)
         return n
 
+    def _scoped(self, node):
+        bound = _scope_bound(node) & set(self.mapping)
+        if not bound:
+            return self.generic_visit(node)
+        saved = self.mapping
+        self.mapping = {k: v for k, v in saved.items() if k not in bound}
+        try:
+            # defaults / decorators are evaluated in the enclosing scope
+            a = node.args
+            a.defaults = [_Rename(saved).visit(d) for d in a.defaults]
+            a.kw_defaults = [_Rename(saved).visit(d) if d is not None else None for d in a.kw_defaults]
+            if isinstance(node, ast.Lambda):
+                node.body = self.visit(node.body)
+            else:
+                node.body = [self.visit(s) for s in node.body]
+        finally:
+            self.mapping = saved
+        return node
 
-def _bind(params, defaults, call, skip_self=False):
+    def visit_FunctionDef(self, node):
+        if node.name in self.mapping and isinstance(self.mapping[node.name], str):
+            node.name = self.mapping[node.name]
+        return self._scoped(node)
+
+    def visit_Lambda(self, node):
+        return self._scoped(node)
+
+
+def _bind(params, defaults, call, skip_self=False, extra=None):
+    vararg, kwarg, kwonly, kwdefaults = extra or (None, None, [], [])
     ps = params[1:] if skip_self else params
     if any(isinstance(a, ast.Starred) for a in call.args) or any(k.arg is None for k in call.keywords):
         return None
+    b = {}
     if len(call.args) > len(ps):
-        return None
-    b = dict(zip(ps, call.args))
-    for k in call.keywords:
-        if k.arg not in ps or k.arg in b:
+        if vararg is None:
             return None
-        b[k.arg] = k.value
+        b[vararg] = ast.Tuple(elts=list(call.args[len(ps):]), ctx=ast.Load())
+    elif vararg is not None:
+        b[vararg] = ast.Tuple(elts=[], ctx=ast.Load())
+    b.update(dict(zip(ps, call.args)))
+    rest = []
+    for k in call.keywords:
+        if k.arg in b:
+            return None
+        if k.arg in ps or k.arg in kwonly:
+            b[k.arg] = k.value
+        elif kwarg is not None:
+            rest.append(k)
+        else:
+            return None
+    if kwarg is not None:
+        b[kwarg] = ast.Dict(keys=[ast.Constant(value=k.arg) for k in rest], values=[k.value for k in rest])
     dps = params[len(params) - len(defaults):] if defaults else []
     for p, d in zip(dps, defaults):
         if p in ps and p not in b:
             b[p] = d
-    if set(b) != set(ps):
+    for p, d in zip(kwonly, kwdefaults):
+        if p not in b and d is not None:
+            b[p] = d
+    want = set(ps) | set(kwonly) | ({vararg} if vararg else set()) | ({kwarg} if kwarg else set())
+    if set(b) != want:
         return None
     return b
 
@@ -189,6 +270,7 @@ class Inliner:
         self.expanded = {}
         self.helpers = {}       # name -> FunctionDef (module level, private)
         self.methods = {}       # (class name, method name) -> FunctionDef (private methods)
+        self.local_helpers = {}  # name -> nested FunctionDef (set while a local closure is being inlined)
         for n in tree.body:
             if isinstance(n, ast.FunctionDef) and n.name.startswith('_') and not n.name.startswith('__'):
                 self.helpers[n.name] = n
@@ -197,12 +279,29 @@ class Inliner:
                     if isinstance(m, ast.FunctionDef) and m.name.startswith('_') and not m.name.startswith('__') and not m.decorator_list:
                         self.methods[(n.name, m.name)] = m
 
+    def run(self):
+        if not (self.helpers or self.methods):
+            return
+        for n in self.tree.body:
+            if isinstance(n, ast.FunctionDef):
+                self.process_function(n, None)
+            elif isinstance(n, ast.ClassDef):
+                for m in n.body:
+                    if isinstance(m, ast.FunctionDef):
+                        self.process_function(m, n.name)
+
     def callee(self, call, cls):
         f = call.func
+        if isinstance(f, ast.Name) and f.id in self.local_helpers:
+            return self.local_helpers[f.id], False
+        if self.local_helpers:
+            return None, False
         if isinstance(f, ast.Name) and f.id in self.helpers:
             return self.helpers[f.id], False
-        if cls is not None and isinstance(f, ast.Attribute) and isinstance(f.value, ast.Name) and f.value.id == 'self' and (cls, f.attr) in self.methods:
-            return self.methods[(cls, f.attr)], True
+        if cls is not None and isinstance(f, ast.Attribute) and isinstance(f.value, ast.Name) and f.value.id == 'self':
+            for nm in (f.attr, '_%s%s' % (cls.lstrip('_'), f.attr) if f.attr.startswith('__') else f.attr):
+                if (cls, nm) in self.methods:
+                    return self.methods[(cls, nm)], True
         return None, False
 
     def expand_call(self, call, cls, depth):
@@ -213,8 +312,8 @@ class Inliner:
         sh = _simple_helper(fn)
         if sh is None:
             return None
-        params, stmts, ret, defaults = sh
-        b = _bind(params, defaults, call, skip_self=is_method)
+        params, stmts, ret, defaults, extra = sh
+        b = _bind(params, defaults, call, skip_self=is_method, extra=extra)
         if b is None:
             return None
         self.counter += 1
@@ -222,20 +321,33 @@ class Inliner:
         tag = '__%s_%d' % (fn.name.strip('_'), self.counter)
         local = set()
         for s in stmts:
-            for n in ast.walk(s):
+            for n in _walk_own(s):
                 if isinstance(n, ast.Name) and isinstance(n.ctx, ast.Store):
                     local.add(n.id)
+                if isinstance(n, ast.FunctionDef):
+                    local.add(n.name)
         mapping = {}
         pre = []
         for p, arg in b.items():
             # a parameter that is re-assigned in the helper, or an argument that is not a plain name / constant and used several times, gets a temporary
             uses = sum(1 for s in stmts + [ast.Expr(value=ret)] for n in ast.walk(s) if isinstance(n, ast.Name) and n.id == p)
-            if p in local or (uses > 1 and not isinstance(arg, (ast.Name, ast.Constant, ast.Attribute))):
+            in_nested = any(isinstance(n, ast.Name) and n.id == p for s in stmts + [ast.Expr(value=ret)] for d in _walk_own(s)
+                            if isinstance(d, (ast.FunctionDef, ast.Lambda)) for n in ast.walk(d))
+            aggregate = isinstance(arg, (ast.Tuple, ast.Dict)) and p in (extra[0], extra[1])
+            simple_arg = isinstance(arg, (ast.Name, ast.Constant, ast.Attribute, ast.Lambda)) or aggregate
+            if p in local or (uses > 1 and not simple_arg) or (in_nested and not simple_arg):
+                t = p + tag
+                pre.append(ast.copy_location(ast.Assign(targets=[ast.Name(id=t, ctx=ast.Store())], value=copy.deepcopy(arg), lineno=call.lineno), call))
+                mapping[p] = t
+            elif aggregate and uses:
+                # *args / **kwargs of the helper: a named local tuple / dict literal (element-wise uses are resolved by the lowering passes)
                 t = p + tag
                 pre.append(ast.copy_location(ast.Assign(targets=[ast.Name(id=t, ctx=ast.Store())], value=copy.deepcopy(arg), lineno=call.lineno), call))
                 mapping[p] = t
             else:
                 mapping[p] = arg
+        if is_method:
+            pass
         for l in local:
             if l not in mapping or not isinstance(mapping[l], str):
                 mapping[l] = l + tag
@@ -270,13 +382,30 @@ class Inliner:
                 for h in s.handlers:
                     h.body = self.process_block(h.body, cls, depth, owner)
             if isinstance(s, ast.FunctionDef):
-                s.body = self.process_block(s.body, cls, depth, s)
+                s.body = self.process_block(s.body, cls, depth, s if not self.local_helpers else owner)
                 out.append(s)
                 continue
             if isinstance(s, (ast.Assign, ast.AugAssign, ast.Return, ast.Expr, ast.AnnAssign)) and getattr(s, 'value', None) is not None:
                 pre, newv = self.rewrite_expr(s.value, cls, depth, owner)
                 if pre or newv is not s.value:
                     s.value = newv
+                    out.extend(self.process_block(pre, cls, depth + 1, owner))
+                    if isinstance(s, ast.Expr) and isinstance(newv, ast.Constant):
+                        continue        # the call statement of an inlined procedure: its value (None) is not a statement
+            elif isinstance(s, ast.Raise) and s.exc is not None:
+                pre, newv = self.rewrite_expr(s.exc, cls, depth, owner)
+                if pre or newv is not s.exc:
+                    s.exc = newv
+                    out.extend(self.process_block(pre, cls, depth + 1, owner))
+            elif isinstance(s, ast.If):
+                pre, newv = self.rewrite_expr(s.test, cls, depth, owner)
+                if pre or newv is not s.test:
+                    s.test = newv
+                    out.extend(self.process_block(pre, cls, depth + 1, owner))
+            elif isinstance(s, ast.For):
+                pre, newv = self.rewrite_expr(s.iter, cls, depth, owner)
+                if pre or newv is not s.iter:
+                    s.iter = newv
                     out.extend(self.process_block(pre, cls, depth + 1, owner))
             out.append(s)
         return out
@@ -987,16 +1116,11 @@ def _drop_dead_helpers(tree, inl):
 
 
 def normalize_module(tree, modname):
-    Spelling(methods=modname in KERNEL_MODULES).visit(tree)
+    from . import lower
+    spell = Spelling(methods=modname in KERNEL_MODULES)
+    spell.visit(tree)
     inl = Inliner(tree)
-    if inl.helpers or inl.methods:
-        for n in tree.body:
-            if isinstance(n, ast.FunctionDef):
-                inl.process_function(n, None)
-            elif isinstance(n, ast.ClassDef):
-                for m in n.body:
-                    if isinstance(m, ast.FunctionDef):
-                        inl.process_function(m, n.name)
+    lower.lower_module(tree, inl, extra_passes=(lambda t: spell.visit(t), lambda t: UnrollLiteral().visit(t), lambda t: UnrollComp().visit(t)))
     if inl.helpers or inl.methods:
         _drop_dead_helpers(tree, inl)
     IfAssign().visit(tree)         # after inlining: a helper `return a if c else b` is inlined as an expression first
